@@ -3,8 +3,7 @@ import Cactus.Lemmas.Once
 import Cactus.Lemmas.NoErr
 import Cactus.Lemmas.Final
 import Cactus.Lemmas.Orphan
-import Cactus.Props.C16
-import Cactus.Props.C04
+import Cactus.Lemmas.Shared.OneStep   -- `Shared.rcDrop_dead_noop`, `Shared.decWeakFree_released`
 /-!
 # C02 — values die at most once; the library never touches freed memory
 
@@ -43,7 +42,7 @@ theorem C02_begun_object_inert (s : State) (o : Nat) (ob : Obj) (v : Val)
         = some { ob with strong := .uninit, value := none } := by
       have := cell_setObj_same s o ob { ob with strong := .uninit, value := none } hc
       simpa [State.push, State.cell, hf] using this
-    exact C16_drop_dead_noop _ o _ hcell rfl
+    exact Shared.rcDrop_dead_noop _ o _ hcell rfl
 
 /-- every trace only reads tables of live objects, and every key of the cycle map is a live,
 readable allocation: the trace and the orphan test never touch a released allocation or a
@@ -55,7 +54,7 @@ theorem C02_trace_reads_live_only (s : State) (x : Nat) (hO : s.InvO) (hB : s.In
 
 /-- releasing is never silent on a released allocation (see also `C04_no_double_release`) -/
 theorem C02_no_silent_double_free (s : State) (o : Nat) (h : s.cell o = none) (he : s.err = none) :
-    (s.weakDrop o).err = some (.uaf o) := (C04_no_double_release s o false h he).1
+    (s.weakDrop o).err = some (.uaf o) := (Shared.decWeakFree_released s o false h he).1
 
 
 /-! ## Over whole contract-respecting histories -/
